@@ -25,6 +25,8 @@ func init() {
 
 func runC13(c *Ctx) {
 	p := c.Progs["mod"]
+	c.Rule("C13.Y", "compatibility with the party that is not changed with this code: the shim dials the host --host names", 1)
+	ruleHostProxyFlagRoles(c, p, "C13.Y", "host")
 	c.Rule("C13.U", "definite overwrite of every authority-bearing URL field before the dial", 9)
 	c.Rule("C13.D", "who-may-dial in the shim package", 6)
 	c.Rule("C13.M", "mounting of the shim endpoints and pass-through identity", 9)
